@@ -14,12 +14,40 @@ Tie: (1) `Closed` in Lean vs an independent Go implementation on the same genera
 (6) every counterexample witness of the Lean file replayed on the real code.
 Oracle failures are shrunk and matched against the known findings; anything else is a VIOLATION.
 """
-import collections, json, os, re, sys, time
+import collections, json, os, re, subprocess, sys, time
 from verifkit.core import *
 from verifkit import core as vcore
 
 PID = "C05"
 PROPOSED_PATH = os.path.join(WORK, "proposed_findings_C05.json")
+
+
+MYDRV = os.path.join(BIN, "drv-c05")
+
+
+def snapshot_driver():
+    """private copy of the driver binary (other checks relink lean/.lake/build/bin/drv concurrently)"""
+    import shutil
+    with Lock("lake"):
+        if not os.path.exists(DRV):
+            return False
+        tmp = MYDRV + ".tmp%d" % os.getpid()
+        shutil.copy2(DRV, tmp)
+        os.replace(tmp, MYDRV)
+    return True
+
+
+def drv(lines, timeout=1800):
+    if not lines:
+        return []
+    p = subprocess.run([MYDRV], input="\n".join(lines) + "\n", capture_output=True, text=True, timeout=timeout)
+    out = p.stdout.split("\n")
+    if out and out[-1] == "":
+        out.pop()
+    if len(out) != len(lines):
+        raise RuntimeError("driver returned %d replies for %d requests (rc=%s, stderr=%s)"
+                           % (len(out), len(lines), p.returncode, p.stderr[-2000:]))
+    return out
 
 
 def theorem_names():
@@ -139,6 +167,26 @@ class Streams:
         return rows, dis, fails
 
 
+def hypothesis_check(c, stream, rows):
+    """the decidable hypotheses of C05_names, evaluated by the driver on every name-op case:
+    whenever they hold (input Closed, side conditions granted, opOK before every step) the oracle
+    must have found every intermediate result Closed"""
+    cases = [r for r in rows if r[0].startswith("nameops ")]
+    replies = drv(["namesok " + r[0][len("nameops "):] for r in cases])
+    holds = 0
+    for r, rep in zip(cases, replies):
+        if rep == "closed=true side=true hyp=true":
+            holds += 1
+            if r[2].startswith("FAIL"):
+                c.violation({"kind": "theorem-contradicted", "stream": stream,
+                             "broken": "C05_names: hypotheses hold on this case but the implementation leaves a dangling use",
+                             "case": r[0][:20000], "oracle": r[2]})
+    st = c.cov["streams"].setdefault(stream, {"evaluations": 0})
+    st["C05_names_hypotheses_hold"] = holds
+    st["C05_names_hypotheses_evaluated"] = len(cases)
+    return holds
+
+
 def replay(c, hb, path):
     rp = json.load(open(path))
     case = rp.get("case") or rp.get("request")
@@ -174,6 +222,7 @@ def main():
         c.finish("go build -overlay (harness)", "n/a")
     if c.replay:
         ok, out = lake_build(("drv",))
+        snapshot_driver()
         replay(c, hb, c.replay)
 
     # regenerated facts: the per-language pass lists
@@ -186,7 +235,8 @@ def main():
 
     theorems = theorem_names()
     c.lean_obligations(theorems, imports=("Cog.Props.C05",), targets=("Cog.Props.C05", "drv"))
-    if not os.path.exists(DRV):
+    if not snapshot_driver():
+        c.oblige("driver binary exists", False, DRV)
         c.finish("lake build", "n/a")
 
     S = Streams(c, hb)
@@ -220,12 +270,14 @@ def main():
               nontrivial=lambda r: r[1].startswith(("true", "false")))
     S.process("c05-chains", harness(hb, "c05-chains", n=n(250, 8000), seed=seed, tier=tier, work=WORK),
               nontrivial=lambda r: r[1].startswith(("true", "false")))
-    S.process("c05-nameops", harness(hb, "c05-nameops", n=n(1200, 40000), seed=seed, tier=tier, work=WORK,
-                                     len=n(4, 8), quirks=8),
-              nontrivial=lambda r: r[1].startswith("ok"))
-    S.process("c05-nameops-clean", harness(hb, "c05-nameops", n=n(600, 20000), seed=seed + 1000, tier=tier, work=WORK,
-                                           len=n(4, 8), quirks=0),
-              nontrivial=lambda r: r[1].startswith("ok"))
+    rows, _, _ = S.process("c05-nameops", harness(hb, "c05-nameops", n=n(1200, 40000), seed=seed, tier=tier, work=WORK,
+                                                  len=n(4, 8), quirks=8),
+                           nontrivial=lambda r: r[1].startswith("ok"))
+    hypothesis_check(c, "c05-nameops", rows)
+    rows, _, _ = S.process("c05-nameops-clean", harness(hb, "c05-nameops", n=n(600, 20000), seed=seed + 1000, tier=tier,
+                                                        work=WORK, len=n(4, 8), quirks=0),
+                           nontrivial=lambda r: r[1].startswith("ok"))
+    hypothesis_check(c, "c05-nameops-clean", rows)
     S.process("c05-filter", harness(hb, "c05-filter", n=n(800, 30000), seed=seed, tier=tier, work=WORK),
               nontrivial=lambda r: r[1].startswith("ok"))
 
